@@ -8,9 +8,9 @@ from harness.common import CORPUS_DIR
 from harness.store_impl import RealStore, fresh_dir, rm_dir, run_impl, run_model, shrink_ops
 
 OP_CLASS = {
-    'C07': {'create', 'open_read', 'open_append', 'close', 'add', 'get', 'len', 'iter', 'sync'},
+    'C07': {'create', 'open_read', 'open_append', 'close', 'add', 'get', 'len', 'iter', 'sync', 'save'},
     'C08': {'get_flight', 'add'},
-    'C10': {'add', 'get', 'len', 'iter', 'close', 'open_read', 'open_append', 'get_flight', 'sync'},
+    'C10': {'add', 'get', 'len', 'iter', 'close', 'open_read', 'open_append', 'get_flight', 'sync', 'save'},
 }
 
 
